@@ -179,7 +179,7 @@ func runSolverOnceCtx(parent context.Context, sp solverSpec, file string, secs i
 func solve(file string, secs int, all bool) (Result, []Result) {
 	if all {
 		// thorough: every member of the portfolio runs to its verdict (cross-check: how many of them prove the goal);
-		// members that are still running 20 s after the first proof are stopped - their verdict would not change the result
+		// members that are still running 5 s after the first proof are stopped - their verdict would not change the result
 		specs := append([]solverSpec{solvers[0], z3EM}, solvers[1:]...)
 		var wg sync.WaitGroup
 		rs := make([]Result, len(specs))
@@ -192,7 +192,7 @@ func solve(file string, secs int, all bool) (Result, []Result) {
 				defer wg.Done()
 				rs[i] = runSolverCtx(ctx, sp, file, secs)
 				if rs[i].Status == "unsat" {
-					once.Do(func() { go func() { time.Sleep(20 * time.Second); cancel() }() })
+					once.Do(func() { go func() { time.Sleep(5 * time.Second); cancel() }() })
 				}
 			}()
 		}
